@@ -6,6 +6,7 @@
 //   D n | table (n*n) | n1 idx.. | n2 idx.. | partition sizes | reg               (DiscreteKernel)
 //   P dim | <kernel spec> | n1 s_1 pts.. s_2 pts.. | n2 ... | c (n1*n2)              (PointSetKernel: inputs are point sets)
 //   M dim1 dim3 nt | table(nt*nt) | g logw2 logw3 | n1 (v1 idx v3).. | n2 .. | partition sizes   (MklKernel: RBF(g) x Discrete x Linear)
+//   T dim nt | <kernel spec> | gamma | n (x task).. | reps     (GaussianTaskKernel over the multi-task data, MultiTaskKernel(spec kernel, task kernel))
 //
 // kernel spec (prefix): LIN | POLY d c degIsParam unconstrained | MONO d | RBF g unconstrained | ARD g1..gdim |
 //   NORM K | SCALED f K | WSUM n logw2..logwn K1..Kn | PROD n K1..Kn | SUBR n a1 b1 K1 .. an bn Kn | MODEL m W(m*dim) b(m) K
@@ -22,6 +23,8 @@
 //   WI  weightedInputDerivative (n1*dim)   NI five-point finite differences (h = 2^-10) of sum_ij c_ij k(x_i,z_j) w.r.t. X1
 //   WP  weightedParameterDerivative        NP five-point finite differences (h = 2^-10) w.r.t. the parameter vector
 //   WP2 second call of weightedParameterDerivative into the same (already filled) gradient vector
+//   T cases: TK task-kernel table right after construction, TK2 after reps x setParameterVector(parameterVector()), KI input kernel on
+//            all pairs of examples, MT MultiTaskKernel single evaluations on all pairs, MB its batch evaluation, TS the task indices
 //   KD  calculateKernelMatrixParameterDerivative(X1 partitioned, weights = c-like symmetric matrix CS), NKD its finite differences
 #include <shark/Models/Kernels/LinearKernel.h>
 #include <shark/Models/Kernels/PolynomialKernel.h>
@@ -37,6 +40,7 @@
 #include <shark/Models/Kernels/ModelKernel.h>
 #include <shark/Models/Kernels/PointSetKernel.h>
 #include <shark/Models/Kernels/MklKernel.h>
+#include <shark/Models/Kernels/MultiTaskKernel.h>
 #include <shark/Models/Kernels/KernelHelpers.h>
 #include <shark/Models/LinearModel.h>
 #include <shark/LinAlg/KernelMatrix.h>
@@ -189,11 +193,12 @@ template<class I> static void common(Out& o, AbstractKernelFunction<I>& k, std::
 	if (paramDeriv && k.hasFirstParameterDerivative()) {
 		RealVector g; k.weightedParameterDerivative(b1, b2, C, *st, g); o.vec("WP", g);
 		k.weightedParameterDerivative(b1, b2, C, *st, g); o.vec("WP2", g);
-		o.sv("NP", fdparams(k, [&]() { return wsum(k, X1, X2, C); }));
-		// symmetric weights for the dataset-level derivative
+		// symmetric weights for the dataset-level derivative (computed before the finite differences: they re-encode the
+		// parameters, e.g. exp(log(offset)), after which the kernel values are no longer exact)
 		RealMatrix CS(n1, n1);
 		for (std::size_t i = 0; i != n1; ++i) for (std::size_t j = 0; j != n1; ++j) CS(i, j) = C(i % n1, j % n2) + C(j % n1, i % n2);
 		RealVector kd = calculateKernelMatrixParameterDerivative(k, d, CS); o.vec("KD", kd);
+		o.sv("NP", fdparams(k, [&]() { return wsum(k, X1, X2, C); }));
 		o.sv("NKD", fdparams(k, [&]() { return wsum(k, X1, X1, CS); }));
 	}
 }
@@ -323,6 +328,34 @@ static void mkl_case(Out& o, std::vector<Toks> const& g) {
 	o.mat("R", R);
 }
 
+static void task_case(Out& o, std::vector<Toks> const& g) {
+	typedef MultiTaskSample<RealVector> S;
+	std::size_t dim = std::stoul(g[0].at(0)), nt = std::stoul(g[0].at(1));
+	Builder<RealVector> b(g[1]); AbstractKernelFunction<RealVector>* k = b.parse(dim);
+	double gamma = num(g[2].at(0));
+	std::size_t n = std::stoul(g[3].at(0)), p = 1; std::vector<S> X; std::vector<double> ts;
+	for (std::size_t i = 0; i != n; ++i) {
+		RealVector v(dim); for (std::size_t d = 0; d != dim; ++d) v(d) = num(g[3].at(p++));
+		std::size_t t = std::stoul(g[3].at(p++)); X.push_back(S(v, t)); ts.push_back((double)t);
+	}
+	std::size_t reps = std::stoul(g[4].at(0));
+	Data<S> data = createDataFromRange(X, 3);
+	GaussianTaskKernel<RealVector> tk(data, nt, *k, gamma);
+	o.sv("TS", ts);
+	RealMatrix T0(nt, nt); for (std::size_t i = 0; i != nt; ++i) for (std::size_t j = 0; j != nt; ++j) T0(i, j) = tk.eval(i, j);
+	o.mat("TK", T0);
+	RealMatrix KI(n, n); for (std::size_t i = 0; i != n; ++i) for (std::size_t j = 0; j != n; ++j) KI(i, j) = k->eval(X[i].input, X[j].input);
+	o.mat("KI", KI);
+	MultiTaskKernel<RealVector> mt(k, &tk);
+	RealMatrix MT(n, n); for (std::size_t i = 0; i != n; ++i) for (std::size_t j = 0; j != n; ++j) MT(i, j) = mt.eval(X[i], X[j]);
+	o.mat("MT", MT);
+	{ typedef Batch<S>::type B; B bx = createBatch<S>(X); RealMatrix r; mt.eval(bx, bx, r); o.mat("MB", r); }
+	// re-parameterisation with the unchanged parameter vector must leave the table unchanged
+	for (std::size_t r = 0; r != reps; ++r) { RealVector pv = tk.parameterVector(); tk.setParameterVector(pv); }
+	RealMatrix T1(nt, nt); for (std::size_t i = 0; i != nt; ++i) for (std::size_t j = 0; j != nt; ++j) T1(i, j) = tk.eval(i, j);
+	o.mat("TK2", T1);
+}
+
 int main(int argc, char** argv) {
 	std::ifstream in(argv[1]); std::string line;
 	while (std::getline(in, line)) {
@@ -335,6 +368,7 @@ int main(int argc, char** argv) {
 			else if (cmd == "D") discrete_case(o, g);
 			else if (cmd == "P") pointset_case(o, g);
 			else if (cmd == "M") mkl_case(o, g);
+			else if (cmd == "T") task_case(o, g);
 			else o.key("UNKNOWN");
 			std::cout << o.o.str() << std::endl;
 		} catch (shark::Exception const& e) { std::cout << o.o.str() << " EXC=" << 1 << std::endl; }
